@@ -355,3 +355,164 @@ _run_c22c = run
 def run(ctx):  # noqa: F811
     _run_c22c(ctx)
     r22_7(ctx, ctx.model)
+
+
+# ---------------------------------------------------------------------------------------------------------------- R22.9
+def r22_9(ctx, m, rid="R22.9"):
+    """shareRange is a partition of range(nwork) into consecutive ranges - decided on terms, by cases"""
+    from .c03 import _load_sympy
+    sp = _load_sympy()
+    fi = m.func("nifty.cl.utilities", "shareRange")
+    ctx.rule(rid, "utilities.shareRange(nwork, nshares, k) -> (lo, hi): the shares tile range(nwork) - lo(0) = 0, hi(k) = lo(k+1) for "
+                  "every k, hi(nshares-1) = nwork - read from the source as integer terms (floor division, remainder, min, int(cond), "
+                  "conditional expressions) and decided by the case split k < remainder / k >= remainder with sympy as normaliser; "
+                  "which samples a task draws, saves and loads hangs on it", floor=3)
+    if sp is None:
+        ctx.und(rid, f"{fi.key}::partition", "sympy not importable", fi)
+        return
+    ctx.saw_func(fi)
+    pn = fi.params()
+    if len(pn) != 3:
+        ctx.und(rid, f"{fi.key}::partition", "signature changed", fi)
+        return
+    W, N, K = sp.Symbol("q", integer=True, nonnegative=True), sp.Symbol("n", integer=True, positive=True), sp.Symbol("k", integer=True, nonnegative=True)
+    # nwork = q*n + a with 0 <= a < n: floor division and remainder become exact terms
+    a = sp.Symbol("a", integer=True, nonnegative=True)
+    base = {pn[0]: W * N + a, pn[1]: N}
+
+    class Unmodelled(Exception):
+        pass
+
+    def tr(e, env):
+        if isinstance(e, ast.Constant) and isinstance(e.value, int):
+            return sp.Integer(e.value)
+        if isinstance(e, ast.Name):
+            if e.id in env:
+                return env[e.id]
+            raise Unmodelled(e.id)
+        if isinstance(e, ast.BinOp):
+            nw, ns = src(e.left), src(e.right)
+            if isinstance(e.op, ast.FloorDiv) and nw == pn[0] and ns == pn[1]:
+                return W
+            if isinstance(e.op, ast.Mod) and nw == pn[0] and ns == pn[1]:
+                return a
+            l, r = tr(e.left, env), tr(e.right, env)
+            ops = {ast.Add: l + r, ast.Sub: l - r, ast.Mult: l * r}
+            if type(e.op) in ops:
+                return ops[type(e.op)]
+            raise Unmodelled(src(e))
+        if isinstance(e, ast.Call):
+            f = src(e.func)
+            if f == "min" and len(e.args) == 2:
+                return sp.Min(tr(e.args[0], env), tr(e.args[1], env))
+            if f == "max" and len(e.args) == 2:
+                return sp.Max(tr(e.args[0], env), tr(e.args[1], env))
+            if f in ("int", "bool") and len(e.args) == 1:
+                return sp.Piecewise((1, cond(e.args[0], env)), (0, True))
+            raise Unmodelled(src(e))
+        if isinstance(e, ast.IfExp):
+            return sp.Piecewise((tr(e.body, env), cond(e.test, env)), (tr(e.orelse, env), True))
+        if isinstance(e, ast.Compare) and len(e.ops) == 1:
+            return sp.Piecewise((1, cond(e, env)), (0, True))
+        raise Unmodelled(src(e))
+
+    def cond(e, env):
+        if isinstance(e, ast.Compare) and len(e.ops) == 1:
+            l, r = tr(e.left, env), tr(e.comparators[0], env)
+            ops = {ast.Lt: sp.Lt, ast.LtE: sp.Le, ast.Gt: sp.Gt, ast.GtE: sp.Ge, ast.Eq: sp.Eq, ast.NotEq: sp.Ne}
+            if type(e.ops[0]) in ops:
+                return ops[type(e.ops[0])](l, r)
+        raise Unmodelled(src(e))
+
+    def lohi(kval):
+        env = dict(base)
+        env[pn[2]] = kval
+        for st in fi.node.body:
+            if isinstance(st, ast.Expr):
+                continue
+            if isinstance(st, ast.Assign) and len(st.targets) == 1:
+                t = st.targets[0]
+                if isinstance(t, ast.Name):
+                    env[t.id] = tr(st.value, env)
+                    continue
+                if isinstance(t, ast.Tuple) and len(t.elts) == 2 and isinstance(st.value, ast.Call) and src(st.value.func) == "divmod" \
+                        and [src(z) for z in st.value.args] == [pn[0], pn[1]]:
+                    env[t.elts[0].id], env[t.elts[1].id] = W, a
+                    continue
+                raise Unmodelled(src(st))
+            if isinstance(st, ast.Return) and isinstance(st.value, ast.Tuple) and len(st.value.elts) == 2:
+                return tr(st.value.elts[0], env), tr(st.value.elts[1], env)
+            raise Unmodelled(src(st))
+        raise Unmodelled("no return")
+
+    t = sp.Symbol("t", integer=True, nonnegative=True)
+
+    fresh = [0]
+
+    def cases(e, depth=0):
+        """values of e over a case split of its Piecewise conditions (conditions `s <= 0` / `s < 1` / `s >= 1` / `s > 0` on
+        non-negative integer symbols are resolved by s = 0 resp. s = 1 + s'); None if a condition is not of that kind"""
+        e = sp.simplify(sp.piecewise_fold(e))
+        pws = list(e.atoms(sp.Piecewise))
+        if not pws:
+            return [e]
+        if depth > 6:
+            return None
+        pw = pws[0]
+        c = pw.args[0][1]
+        sym = None
+        if isinstance(c, (sp.Le, sp.Lt, sp.Ge, sp.Gt, sp.Eq, sp.Ne)):
+            fs = [x for x in c.free_symbols if x.is_nonnegative]
+            if len(fs) == 1 and sp.simplify(c.subs(fs[0], 0)) in (sp.true, sp.false) :
+                sym = fs[0]
+        if sym is None:
+            return None
+        fresh[0] += 1
+        s2 = sp.Symbol(f"{sym.name}_{fresh[0]}", integer=True, nonnegative=True)
+        out = []
+        for sub in (0, 1 + s2):
+            r = cases(e.subs(sym, sub), depth + 1)
+            if r is None:
+                return None
+            out += r
+        return out
+
+    def zero(e):
+        cs = cases(e)
+        if cs is None:
+            return None
+        if all(c == 0 for c in cs):
+            return True
+        return False
+    try:
+        obligations = []
+        # case A: k = a - 1 - t  (k < a; needs a >= 1 + t): write a = k + 1 + t
+        # case B: k = a + t      (k >= a)
+        for name, sub_a, kk in (("k < remainder", K + 1 + t, K), ("k >= remainder", None, None)):
+            if sub_a is not None:
+                lo0, hi0 = lohi(K)
+                lo1, _ = lohi(K + 1)
+                d = (lo1 - hi0).subs(a, sub_a)
+            else:
+                lo0, hi0 = lohi(a + t)
+                lo1, _ = lohi(a + t + 1)
+                d = lo1 - hi0
+            obligations.append((f"hi(k) == lo(k+1) for {name}", zero(d), f"lo(k+1) - hi(k) = {sp.simplify(sp.piecewise_fold(d))}"))
+        lo_first, _ = lohi(sp.Integer(0))
+        obligations.append(("lo(0) == 0", zero(lo_first), f"lo(0) = {sp.simplify(sp.piecewise_fold(lo_first))}"))
+        # last share: k = n - 1 >= a because a < n: write n = a + 1 + t
+        _, hi_last = lohi(N - 1)
+        d = (hi_last - (W * N + a)).subs(N, a + 1 + t)
+        obligations.append(("hi(nshares-1) == nwork", zero(d), f"hi(n-1) - nwork = {sp.simplify(sp.piecewise_fold(d))}"))
+        for nm, ok_, det in obligations:
+            ctx.check(rid, f"{fi.key}::{nm}", ok_, det, fi)
+    except Unmodelled as ex:
+        ctx.und(rid, f"{fi.key}::partition", f"term not modelled: {ex}", fi)
+
+
+_run_c22d = run
+
+
+def run(ctx):  # noqa: F811
+    _run_c22d(ctx)
+    r22_9(ctx, ctx.model)
